@@ -54,6 +54,62 @@ def empty_stamp_phase(rep, exe_impl, exe_model):
     return found, validated, len(cases)
 
 
+def mon_only_stored(steps, meta):
+    """configuration with ONLY the 'stored' outcome labelled (label S, no stamp; the shipped defaults have this shape):
+    every journal line is 'S<TAB>path', and each one corresponds to a version or snapshot that appeared in that pass;
+    a deleted / unreadable / non-regular source has no label, hence no line"""
+    if not meta.get("only_stored"):
+        return None
+    prev = None
+    for st in steps:
+        if st.dump is None:
+            continue
+        cur = st.dump
+        if prev is not None:
+            a, b = wk.content(prev.get("/k/var/journal")) or "", wk.content(cur.get("/k/var/journal")) or ""
+            for l in b[len(a):].split("\n")[:-1]:
+                f = l.split("\t")
+                if f[0] != "S" or len(f) != 2:
+                    return "journal line %r: only the stored outcome has a label (S) in this configuration" % l
+                rel = f[1]
+                base = rel.rsplit("/", 1)[-1]
+                if not any((p.startswith("/k/store/%s/" % rel) or p.startswith("/k/projects/%s/" % base)) and p not in prev for p in cur):
+                    return "journal says %r was stored, but nothing new is in the store for it (its source: %s)" % (rel, cur.get("/w/" + rel, ("absent",))[0])
+        prev = cur
+    return None
+
+
+wk.MONITORS["only_stored"] = mon_only_stored
+
+
+def gen_only_stored_case(rng):
+    s = wc.Script()
+    wc.setup_world(s, wc.base_cfg(deb=0, jpat="", ev=[None, None, None, None, None, None, "S"]))
+    s.start()
+    s.exec(3, wc.X + "/vim")
+    files = [wc.WATCH + "/inc/a.txt", wc.WATCH + "/n", wc.WATCH + "/proj/m.c"]
+    for i in range(rng.randint(2, 6)):
+        f = rng.choice(files)
+        s.put(f, "c%d" % i)
+        s.write(3, f)
+        change = rng.choice(["none", "none", "delete", "directory", "unreadable"])
+        if change == "delete":
+            s.rm(f)
+        elif change == "directory":
+            s.rm(f)
+            s.mkdirp(f)
+        elif change == "unreadable":
+            s.chmod(f, False)
+        s.dump()
+        s.timeout()
+        s.dump()
+        if change == "directory":
+            s.add("rmdir %s" % wc.hexs(f))
+        elif change == "unreadable":
+            s.chmod(f, True)
+    return s.text(), {"only_stored": True, "labels_all": False, "journal_counts": False}
+
+
 def main(rep):
     rng = random.Random(rep.seed)
     n = 250 if rep.tier == "quick" else 5000
@@ -77,11 +133,14 @@ def main(rep):
         s.timeout()
         s.dump()
         cases.append(("b%d" % i, s.text(), {"journal_counts": False}))
-    wk.standard_main(rep, cases=cases, monitors=MON, extra=empty_stamp_phase,
+    for i in range(max(8, n // 20)):
+        t, m = gen_only_stored_case(rng)
+        cases.append(("s%d" % i, t, m))
+    wk.standard_main(rep, cases=cases, monitors=["only_stored"] + MON, extra=empty_stamp_phase,
                      rule=("every label independently absent / empty / text, timestamp patterns {'' (expands to nothing), %s, x, t%s-, with slashes; and, implementation only, %Z in a time zone whose abbreviation is empty: a non-empty pattern that expands to nothing}, exec / write / pass events, "
                            "a short-write oracle (1-9 bytes) at a random call of ~30% of the operations, dump after every operation; monitors: each journal only grows, "
                            "by whole well-formed lines; with the default labels also line counts per event and stored/deleted labels against the store"))
 
 
 def replay(rep, path):
-    return wk.replay_world(rep, path, MON)
+    return wk.replay_world(rep, path, ["only_stored"] + MON)
